@@ -3,6 +3,15 @@ package main
 // propTable: the properties claimed, their level and an honest statement of what the obligations decide.
 // Filled in as checks are built; a property absent here is listed under not_applicable in MANIFEST.json.
 var propTable = map[string]propInfo{
+	"C18": {
+		Level: "proof",
+		Explanation: "Contract-based deductive verification of the log storage views against an abstract log: MemoryStorage (compaction point = ents[0].Index, " +
+			"contiguous entries) and unstable (offset, contiguous entries, pending snapshot) carry representation invariants (wf_ms, wf_unstable) that every " +
+			"operation is proved to preserve, and each query/update has a functional postcondition over the abstract view: exact ErrCompacted/ErrUnavailable ranges, " +
+			"term-at, entry windows with limitSize semantics (non-empty maximal prefix within the budget), Append = keep-prefix ++ new entries, Compact, " +
+			"stableTo dropping exactly the acknowledged prefix only when (index, term) matches (ABA), truncateAndAppend's three cases, and no-overwrite frames " +
+			"(no cell of a previously exposed backing-array window is written). Induction over the operation sequence is the trivial one (invariant + per-call contracts).",
+	},
 	"C12": {
 		Level: "proof",
 		Explanation: "Contract-based deductive verification of quorum.MajorityConfig.{VoteResult,CommittedIndex} and quorum.JointConfig.{VoteResult,CommittedIndex}: " +
